@@ -222,3 +222,14 @@ def has_sampling(desc) -> bool:
 def shots_none_ok(desc) -> bool:
     return all(s["m"] in SHOTS_NONE_OK[desc["sim"]] for s in desc["steps"]
                if s["k"] == "measure")
+
+
+def kerr_after_measurement(desc) -> bool:
+    """Trigger of the known finding C13:valid-crash:P:kerr-after-measurement."""
+    seen = False
+    for s in desc["steps"]:
+        if s["k"] in ("measure", "postselect"):
+            seen = True
+        elif seen and s.get("g") in ("Kerr", "CrossKerr"):
+            return True
+    return False
